@@ -540,16 +540,18 @@ def shrink(case):
 
 
 LEVEL_TEXT = ('Theorems (Props/C17.v, all closed under the global context) over an exact Gallina model of getinterpweights / sigma2coeff / '
-              'the conserve branch of interpSigma: for ascending sources of ANY length >= 2 and EVERY target point the weights sum to one '
-              '(C17_weights_partition_of_unity_partial), are non-negative when not extrapolating (C17_weights_nonneg_partial), reproduce every '
-              'linear profile exactly inside the range or when extrapolating (C17_weights_linear_exact_partial) and are the identity at source '
-              'points (C17_weights_identity_partial) — _partial because a descending source is handled by a reversal that only the '
-              'correspondence ties; a constant field stays constant for any coefficient matrix (C17_constant_preserved); column mass equals '
-              'the source integral given the marginals of the overlap matrix (C17_column_mass_from_marginals_partial; the statement '
-              'impl_fdp = overlap with its marginals is kept UNPROVED in Props/C17.v and is checked per case instead); a single source level '
-              'gives NaN weights (C17_single_level_refuted = known finding). Tie H: library weight and coefficient matrices as exact '
-              'fractions vs the model, interpDimension along either axis of 1-D/2-D variables, ioapi_base.interpSigma column integrals.')
-LEVEL_NOTE = ('Trusted: Coq kernel + vm_compute; the correspondence harness; scipy interp1d / numpy.interp abstractions; binary64 exact on '
-              'power-of-two spacings. Not covered by theorems: descending sources (reversal), the floor/ceil loop of sigma2coeff against the '
-              'overlap specification (per-case only), interpSigma vgtop rescaling, bpch/gcnc interpSigma variants, core/_functions.interpvars.')
+              'the conserve branch of interpSigma, for strictly monotonic sources in BOTH directions, ANY length >= 2 and EVERY target point: '
+              'the weights sum to one (C17_weights_partition_of_unity), are non-negative when not extrapolating (C17_weights_nonneg), reproduce '
+              'every linear profile exactly inside the range or when extrapolating (C17_weights_linear_exact) and are the identity at source '
+              'points (C17_weights_identity); for ALL descending sigma grids the floor/ceil loop of sigma2coeff equals the layer-overlap '
+              'lengths (C17_sigma2coeff_is_overlap); for grids sharing top and bottom the rows sum to the source thickness and the normaliser '
+              'is the target thickness (C17_overlap_marginals), hence the thickness-weighted column integral is conserved for every field '
+              '(C17_column_mass_conserved) and a constant field stays constant (C17_constant_preserved; C17_column_mass_algebra is the '
+              'matrix identity used). A single source level gives NaN weights (C17_single_level_refuted = known finding). Tie H: library weight '
+              'and coefficient matrices as exact fractions vs the model, interpDimension along either axis of 1-D/2-D variables and with N-D '
+              'per-column coordinates, ioapi_base.interpSigma column integrals.')
+LEVEL_NOTE = ('Trusted: Coq kernel + vm_compute; the correspondence harness; scipy interp1d / numpy.interp abstractions (interp1d sorts a '
+              'descending source = the reversal in the model); binary64 exact on power-of-two spacings. Not covered by theorems: the float32 '
+              'division nvals = num / ndp in the file (checked to 2e-6), interpSigma vgtop rescaling, bpch/gcnc interpSigma variants, '
+              'core/_functions.interpvars.')
 TECHNIQUE = 'Coq proof (induction over the coordinate list / matrix rows, lia/ring) + differential correspondence on exact fractions'
